@@ -21,6 +21,11 @@ META = {
         text="The pack model predicts every wareID of the round trip (pack, scan, unpack, re-pack); the unpacked tree is compared attribute by attribute with the logical fileset by an independent raw-syscall walker, for tar and zip, file:// and ca+file://, all placement modes. Header-conversion theorems are proved in Lean; the filesystem-level round-trip theorem is partial (see DESIGN.md).",
         note="Trusted: Lean kernel; archive codecs; the kernel's creat/mkdir/chown semantics (exercised, not proved). Known finding: setgid-inherit.",
     ),
+    "C19": dict(
+        technique="Lean 4 theorems on the model of the git tree -> metadata mapping + differential correspondence against the system git",
+        text="C19_tree (one entry per tree path with the documented type/permission mapping, owner 1000:1000, default mtime, name = tree path), C19_count (root + one metadata per walked entry, nothing else), C19_frame (a function of the walked entries only). The model is compared with the real git unpack on generated repositories whose commits are listed by the system git, after the repository has moved on.",
+        note="Trusted: Lean kernel; go-git decoding (input of the model); the system git. Known finding: repositories with a detached HEAD are reported as non-existing warehouses.",
+    ),
     "C20": dict(
         technique="Lean 4 theorem over the regenerated call table of the pack path (read-only operations only) + before/after snapshots on the real filesystem",
         text="factgen regenerates the set of fs.FS methods and os/syscall functions reachable from the pack, scan and mirror paths; a Lean theorem states that every one of them is a read-only operation of the filesystem model. The rt stream snapshots the source tree (content hash, mode, uid, gid, mtime ns) before and after every pack and the source warehouses around scan/unpack/mirror.",
